@@ -26,7 +26,8 @@ ASSUMPTIONS = ["a sender that is itself a logger may see 1 or 2 ACK frames per r
                "a repeated handshake on an already accepted connection must not be acknowledged again (the current code ignores it)",
                "a not-writable report for a sender does not excuse its acknowledgement; its self-addressed markers of that round are dropped legitimately and ignored"]
 REQUIRE = {"acks_expected": 300, "never_acked_frames": 100, "logger_copies_expected": 100,
-           "acks_owed_to_not_writable_sender": 30, "loggers_died_silently": 20}
+           "acks_owed_to_not_writable_sender": 30, "loggers_died_silently": 20,
+           "acks_owed_before_handshake": 100}
 MARK = 7777
 CASE_TIMEOUT = 120
 
@@ -40,8 +41,15 @@ def gen(rng: random.Random, tier):
     ids = {}
     for i, L in enumerate(logs + mods):
         ids[L] = 10 + i if rng.random() < 0.7 else 0
-        steps += [["open", L], ["hello", L, {"mod_id": ids[L], "logger": int(L in logs), "v2": rng.random() < 0.7,
-                                              "v1_after": True}]]
+        steps.append(["open", L])
+        if rng.random() < 0.15:
+            # control frames on a connection whose handshake has not been made yet (the manager serves any accepted
+            # socket): each is owed its acknowledgement like any other, addressed to module 0
+            for _ in range(rng.randint(1, 3)):
+                steps.append([rng.choice(["sub", "sub", "unsub", "pause", "resume"]), L, rng.choice(types)])
+                if rng.random() < 0.3:
+                    steps.append(["round", {"seed": rng.getrandbits(30)}])
+        steps.append(["hello", L, {"mod_id": ids[L], "logger": int(L in logs), "v2": rng.random() < 0.7, "v1_after": True}])
         if rng.random() < 0.5:
             steps.append(["round", {"seed": rng.getrandbits(30)}])
     steps.append(["drain"])
@@ -141,6 +149,8 @@ def judge(sc: Scenario, case):
     logexp = {L: [] for L in sc.cl}       # for loggers: dest ids of ACK copies expected, in order (None=own)
     loggers = []
     never = 0
+    shaken = set()     # connections whose handshake has been accepted
+    pre = {L: 0 for L in sc.cl}   # control frames sent before that: their acknowledgements are addressed to module 0
     ignored = set()    # markers published in a round whose snapshot reported the (non-logger) publisher not writable
     for rec in sc.rounds:
         for G in list(loggers):
@@ -154,6 +164,7 @@ def judge(sc: Scenario, case):
             if k in ("hello_v2", "hello_v1"):
                 if out == "ack":
                     acked = True
+                    shaken.add(L)
                     if d.get("logger"):
                         loggers.append(L)
                 else:
@@ -176,9 +187,13 @@ def judge(sc: Scenario, case):
                 if L in rec.get("nw", ()):
                     C["acks_owed_to_not_writable_sender"] = C.get("acks_owed_to_not_writable_sender", 0) + 1
                 exp[L].append("A")
+                early = L not in shaken
+                if early:
+                    pre[L] += 1
+                    C["acks_owed_before_handshake"] = C.get("acks_owed_before_handshake", 0) + 1
                 for G in loggers:
                     if G != L:
-                        logexp[G].append(cs.mod_id)
+                        logexp[G].append(0 if early else cs.mod_id)
     C["never_acked_frames"] = never
     pinned = False
     for L, cs in sc.cl.items():
@@ -191,6 +206,7 @@ def judge(sc: Scenario, case):
             d.get("logger") for r in sc.rounds for l2, d, o in r["frames"] if l2 == L and d["kind"].startswith("hello") and o == "ack")
         got = []
         others = []
+        own_seen, pre_left = False, pre[L]
         for f in rx[L]["frames"]:
             if f.msg_type == W.MT_ACK:
                 wellformed = f.nbytes == 0 and f.src_mod == 0
@@ -198,6 +214,10 @@ def judge(sc: Scenario, case):
                     V.append({"mech": "ack_malformed", "detail": f"{L}: {f.brief()}"})
                 if f.dest_mod == cs.mod_id:
                     got.append("A")
+                    own_seen = True
+                elif f.dest_mod == 0 and pre_left and not own_seen:
+                    got.append("A")       # answers to what it sent before its handshake
+                    pre_left -= 1
                 else:
                     others.append(f.dest_mod)
             elif f.pid in sc.pubs and f.msg_type == MARK \
